@@ -58,6 +58,9 @@ def type_to_dict(typ: type) -> TypeDict:
     """
     if is_typed_dict(typ):
         return typed_dict_to_dict(typ)
+    if typ is Ellipsis:
+        # the second argument of a homogeneous tuple, `Tuple[T, ...]`
+        return {"module": "builtins", "qualname": "Ellipsis"}
 
     # Union and Any are special cases that aren't actually types.
     if is_union(typ):
@@ -112,6 +115,8 @@ def type_from_dict(d: TypeDict) -> type:
         typ = _HIDDEN_BUILTIN_TYPES[qualname]
     else:
         typ = get_name_in_module(module, qualname)
+    if typ is Ellipsis:
+        return typ  # type: ignore[no-any-return]
     if not (isinstance(typ, type) or is_any(typ) or is_generic(typ)):
         raise InvalidTypeError(
             f"Attribute specified by '{qualname}' in module '{module}' "
